@@ -13,6 +13,7 @@ pub mod libc {
     pub const EINVAL: i32 = 22;
     pub const ENOSYS: i32 = 38;
     pub const ELOOP: i32 = 40;
+    pub const ENAMETOOLONG: i32 = 36;
     pub const AT_FDCWD: i32 = -100;
     pub const O_ACCMODE: i32 = 0o3;
     pub const O_RDONLY: i32 = 0;
